@@ -4,11 +4,13 @@ package main
 
 import (
 	"bytes"
+	"compress/gzip"
 	"context"
 	"fmt"
 	"strings"
 	"time"
 
+	"github.com/DataDog/zstd"
 	clientHandlers "github.com/mimecast/dtail/internal/clients/handlers"
 	"github.com/mimecast/dtail/internal/config"
 	"github.com/mimecast/dtail/internal/io/fs"
@@ -69,11 +71,42 @@ func init() {
 		return strings.Join(fs, ",") + ";" + hx(printed)
 	}
 
-	// c01.e2e <m> <content> [suffix]: the freshly built dcat binary, serverless, --plain.
+	// c01.e2e <m> <content> [gz|gzm|gzip|zst]: the freshly built dcat binary, serverless, --plain; with a suffix the
+	// content is stored compressed (gzm: several gzip members concatenated, which is a valid gzip file) and dcat
+	// must print the decompressed content
 	ops["c01.e2e"] = func(a []string) string {
 		m := atoi(a[0])
+		content := unhex(a[1])
 		name := "e2e.txt"
-		path := tmpFile(name, unhex(a[1]))
+		data := content
+		if len(a) > 2 {
+			var buf bytes.Buffer
+			gz := func(b []byte) {
+				w := gzip.NewWriter(&buf)
+				w.Write(b)
+				w.Close()
+			}
+			switch a[2] {
+			case "gz", "gzip":
+				gz(content)
+				name = "e2e.log." + a[2]
+			case "gzm":
+				k := len(content)
+				gz(content[:k/3])
+				gz(content[k/3 : 2*k/3])
+				gz(content[2*k/3:])
+				name = "e2e.log.gz"
+			case "zst":
+				c, err := zstd.Compress(nil, content)
+				if err != nil {
+					panic(err)
+				}
+				buf.Write(c)
+				name = "e2e.log.zst"
+			}
+			data = buf.Bytes()
+		}
+		path := tmpFile(name, data)
 		cfg := tmpFile("e2e.cfg", []byte(fmt.Sprintf(`{"Server":{"MaxLineLength":%d}}`, m)))
 		out, status := runBin("dcat", "--plain", "--cfg", cfg, "--logger", "stdout", "--logLevel", "error", path)
 		return fmt.Sprintf("%d;%s", status, hx(out))
